@@ -30,7 +30,7 @@ EXHAUSTIVE = {"quick": True, "thorough": True}
 TRUSTED = [
     "Coq 8.16.1 kernel incl. vm_compute",
     "hand-written model coq/Model/IO.v of read_config / read_config_file / openargs / save_as, pinned by the correspondence streams of harness/props/c09.py",
-    "str.splitlines boundary table, the linesplit regex literal, the newline literal of save_as and openargs' newline=None are re-read from the running interpreter / the source on every run (harness/gen_c09.py -> gen/TabC09.v) and checked by Props/C09.v",
+    "str.splitlines boundary table re-read from the running interpreter on every run (harness/gen_c09.py -> gen/TabC09.v; all 0x110000 code points probed); the proofs use only that LF and CR are boundaries (Props/C09.v C09_tables_as_modelled); the regex / newline literals of the source are emitted for information, their behaviour is pinned by the cycle stream",
     "Python codecs: decode(encode(text)) = text for latin-1 / utf-8 (the tie encodes the model's text in Gallina and compares file bytes)",
     "os.linesep == '\\n' (POSIX text-mode write is the identity); re.split(r'\\r*\\n') and open(newline=None) as modelled (pinned by the cycle stream)",
     "get_text() of a parsed list is the list (property C01) - re-observed here on every case",
